@@ -143,7 +143,10 @@ func main() {
 		var must []string
 		lateFail := false
 		dynFail := false
-		switch r.Pick(14) {
+		switch r.Pick(16) {
+		case 14, 15:
+			// union xpaths on array elements (element order must not depend on the node pool)
+			must = []string{"union", "plain"}
 		case 12, 13:
 			// custom functions taking the node implicitly, evaluated on several nodes of one record
 			must = []string{"implicit-node", "plain"}
